@@ -1678,8 +1678,9 @@ impl Rem<Vec3A> for Vec3A {
     type Output = Self;
     #[inline]
     fn rem(self, rhs: Self) -> Self {
-        let n = f32x4_floor(f32x4_div(self.0, rhs.0));
-        Self(f32x4_sub(self.0, f32x4_mul(n, rhs.0)))
+        // There is no SIMD remainder instruction and `a - (a / b).floor() * b` is neither
+        // truncated nor exact, so use the scalar `%` on each element.
+        Self::new(self.x.rem(rhs.x), self.y.rem(rhs.y), self.z.rem(rhs.z))
     }
 }
 
